@@ -131,7 +131,11 @@ NONE_CODE = -1   # encoding of None inside Opt(Int) list elements
 def fresh(ex, schema, name):
     """create a fresh symbolic value of the schema; may fork the execution"""
     if isinstance(schema, _Leaf):
-        return Sym(z3.Const(ex.fresh_name(name), sort_of(schema)), schema.ty)
+        t = z3.Const(ex.fresh_name(name), sort_of(schema))
+        if schema.ty == BYTES:
+            from .values import b_len
+            ex.assume(b_len(t) >= 0)
+        return Sym(t, schema.ty)
     if isinstance(schema, T.Range):
         v = z3.Int(ex.fresh_name(name))
         if schema.lo is not None:
@@ -184,7 +188,7 @@ def fresh(ex, schema, name):
                        z3.BoolSort())
         return SymMap(schema.value, dom, arrays, name)
     if isinstance(schema, T.ByteArray):
-        return MutBytes(z3.Const(ex.fresh_name(name), BytesSort))
+        return MutBytes(fresh(ex, T.Bytes, name).t)
     if isinstance(schema, T.Obj):
         o = Obj(schema.cls, {}, name)
         ex.shared[name] = o
@@ -201,7 +205,11 @@ def fresh(ex, schema, name):
 def elem_from_arrays(ex, schema, arrays, idx, prefix=""):
     """rebuild the element value stored at position idx (z3 Int)"""
     if isinstance(schema, _Leaf):
-        return Sym(z3.simplify(z3.Select(arrays[prefix or "v"], idx)), schema.ty)
+        t = z3.simplify(z3.Select(arrays[prefix or "v"], idx))
+        if schema.ty == BYTES:
+            from .values import b_len
+            ex.assume(b_len(t) >= 0)
+        return Sym(t, schema.ty)
     if isinstance(schema, T.Range):
         v = z3.Select(arrays[prefix or "v"], idx)
         if schema.lo is not None:
